@@ -486,3 +486,45 @@ func c13TableCut(c *Ctx, q2 string) {
 		r.Check(q2, "common.ExtractTable: the table is what precedes the first separator", "", len(ib) == 1 && u.ArgTerm(ib[0], 0) == "p0", "")
 	}
 }
+
+// Q4: the command a partition handler receives is the client's command with the cursor of that partition and the
+// divided COUNT, nothing else: the handlers derive the scan direction from the command name (Args[0]). Every store
+// into an argument slot of a per-partition command in the merge scan writes slot 1 (the cursor) or a slot whose index
+// is known to be positive.
+func c13Q4(c *Ctx) {
+	r := c.R
+	r.Clause("C13-Q4", "the merge scan never overwrites the command name of a per-partition command")
+	n := 0
+	for _, fn := range []string{"server.(*Server).doScanCommon", "server.(*Server).doScanNodesFilter"} {
+		u := c.unit("C13-Q4", fn)
+		if u == nil {
+			continue
+		}
+		for _, s := range u.Sites {
+			if s.Kind != flow.SStore {
+				continue
+			}
+			ix, ok := ast.Unparen(s.LHS).(*ast.IndexExpr)
+			if !ok || !strings.HasSuffix(u.C.Term(ix.X), ".Args") {
+				continue
+			}
+			n++
+			idx := u.C.Term(ix.Index)
+			construct := fmt.Sprintf("%s: store to %s[%s] leaves the command name alone", u.Name, u.C.Term(ix.X), idx)
+			if v := u.C.ConstOf(ix.Index); v != "" {
+				r.Check("C13-Q4", construct, u.Pos(s.Pos), v != "0", "constant slot "+v)
+				continue
+			}
+			pc := u.SitePC(s)
+			res := flow.Implies(pc, c.W.Parse("0 < "+idx))
+			r.Check("C13-Q4", construct, u.Pos(s.Pos), res.Holds && res.Undecided == "",
+				"slot "+idx+" is 0 (the command name, from which the partition handlers take the scan direction) when the client gave no COUNT; pc = "+pc.String())
+		}
+	}
+	r.Min("C13-Q4", n, 2, "stores into argument slots of per-partition scan commands")
+}
+
+func init() {
+	old := registry["C13"].Run
+	registry["C13"].Run = func(c *Ctx) { old(c); c13Q4(c) }
+}
